@@ -542,13 +542,25 @@ def dedup_cases(cases):
 
 
 def thorough_cases():
-    # The quick set first (so that a capped run is still broad), then the full product, then
-    # --no-fork: the write path axes in full, the rest rotated.
-    cases = rotated_cases(["fork"], per_core=2)
-    cases += [make_case(*t) for t in itertools.product(
-        NAMES, SIBS_FULL, SIDES, PRIORS, MODES, THREADS, OUTCOMES, KINDS)]
-    cases += rotated_cases(["nofork"], per_core=2)
-    return dedup_cases([c for c in cases if applicable(c)])
+    """Stages, in the order they are run (so that a run cut short by the wall cap is still broad):
+    1 the quick set; 2 the FULL product of all axes, the five name-like siblings being present
+    together in one directory (sibling axis = none / pack / symlink / hardlink); 3 each name-like
+    sibling alone x name x prior x mode x threads x kind x the outcomes that reach the file writer,
+    side-file option rotated; 4 --no-fork, write-path axes in full and the rest rotated."""
+    staged = [(1, c) for c in rotated_cases(["fork"], per_core=2)]
+    staged += [(2, make_case(*t)) for t in itertools.product(
+        NAMES, SIBS_PACKED, SIDES, PRIORS, MODES, THREADS, OUTCOMES, KINDS)]
+    i = 0
+    for name, sib, prior, mode, th, kind in itertools.product(
+            NAMES, SIB_SINGLE, PRIORS, MODES, THREADS, KINDS):
+        for outcome in ("ok", "err-late", "panic"):
+            staged.append((3, make_case(name, sib, SIDES[i % len(SIDES)], prior, mode, th, outcome,
+                                        kind)))
+            i += 1
+    staged += [(4, c) for c in rotated_cases(["nofork"], per_core=2)]
+    for st, c in staged:
+        c["stage"] = st
+    return dedup_cases([c for _, c in staged if applicable(c)])
 
 
 def rotated_cases(forks, per_core):
@@ -571,6 +583,8 @@ def rotated_cases(forks, per_core):
 
 def quick_cases():
     cases = rotated_cases(["fork"], per_core=2)
+    for c in cases:
+        c["stage"] = 1
     return dedup_cases([c for c in cases if applicable(c)])
 
 
@@ -797,7 +811,7 @@ def run_exit_race(arg):
             env["WILD_VERIF_AT"] = how.split("@", 1)[1]
             env["WILD_VERIF_DO"] = how.split("@", 1)[0]
         before = {a: snapshot(ctx[a]) for a in ("w", "in", "tmp")}
-        rc, out, err = run_wild(argv, ctx["w"], env, timeout=50)
+        rc, out, err = run_wild(argv, ctx["w"], env, timeout=150)
         reached = os.path.exists(os.path.join(pdir, "reached"))
         after = {a: snapshot(ctx[a]) for a in ("w", "in", "tmp")}
         case2 = dict(case, outcome="ok" if how == "hold-remove" else "panic",
@@ -906,7 +920,7 @@ def main():
     t0 = time.time()
     with vlib.scratch("c19") as base:
         # ---- part A
-        cap = 780 if chk.thorough else 150
+        cap = 540 if chk.thorough else 150
         capped = False
         results = []
         for r in vlib.pmap_unordered(run_case, [(c, base) for c in cases], chunksize=8):
@@ -915,6 +929,13 @@ def main():
                 capped = True
                 break
         tA = time.time() - t0
+        stage_progress = {}
+        for st in sorted({c["stage"] for c in cases}):
+            stage_progress[f"stage{st}"] = (
+                f"{sum(1 for r in results if r['case']['stage'] == st)}/"
+                f"{sum(1 for c in cases if c['stage'] == st)}")
+        print(f"C19 part A: {len(results)} of {len(cases)} members in {tA:.0f}s {stage_progress}"
+              + (" (CAPPED)" if capped else ""), file=sys.stderr)
         for r in results:
             c = r["case"]
             if "MACHINERY" in r["counts"]:
@@ -963,6 +984,9 @@ def main():
                 held += 1
             if isinstance(r["rc"], str):
                 chk.machinery(f"exit-race {r['spec']}: {r['rc']}")
+            for k, v in r["counts"].items():
+                if k != "MACHINERY":
+                    counters[k] = counters.get(k, 0) + 1
             for key, what in r["viol"]:
                 chk.violation(key, what + f" [spec {json.dumps(r['spec'])}]",
                               {"part": "C", "spec": r["spec"], "argv": r["argv"], "env": r["env"],
@@ -1028,6 +1052,7 @@ def main():
         "exhaustive": not capped,
         "part_A_members": len(cases),
         "part_A_capped_after_s": cap if capped else None,
+        "part_A_stage_progress": stage_progress,
         "process_runs": {"part_A_links": len(results), "part_B_histories": len(presults),
                          "part_B_links": 2 * len(presults), "part_C_links": len(eresults),
                          "part_D_links": len(dresults)},
@@ -1038,7 +1063,10 @@ def main():
         "shared_name_order_shapes": sorted(shapes),
         "part_C_remove_task_held_until_exit": held,
         "counted_not_raised": counters,
-        "thinning": ("none (full product; plus a rotated --no-fork subset)" if chk.thorough else
+        "thinning": ("full product of all axes with the five name-like siblings packed into one "
+                     "directory (stage 2); each sibling alone only for the outcomes that reach "
+                     "the file writer and with the side-file option rotated (stage 3); --no-fork "
+                     "rotated (stage 4)" if chk.thorough else
                      "siblings packed into one directory (none / all five name-like siblings "
                      "together / symlink / hardlink); full product of sibling x prior x mode x "
                      "threads x kind x name, with 2 rotated (side, outcome) pairs per member "
